@@ -55,13 +55,21 @@ def gen_excs() -> list[tuple[str, tuple]]:
             ("RetryError", ("try later",)), ("ZeroDivisionError", ("division by zero",)), ("TypeError", ("x", "y", 1))]
 
 
+def forget_local_copies(app) -> None:  # type: ignore[no-untyped-def]
+    """the client that reads an outcome is not the process that produced it: it has no locally cached copy of the externalised
+    object (the in-process LRU of the client data store would hand back the very object the worker stored)"""
+    cache = getattr(app.client_data_store, "_deserialized_cache", None)
+    if cache is not None:
+        cache.clear()
+
+
 def value_path(ctx: Ctx) -> None:
     """every serializer x backend x threshold: run the real body, read the outcome as a client does"""
     from pynenc.exceptions import InvocationError
     from pynenc.invocation.status import InvocationStatus as S
 
     sers = ["JsonSerializer", "PickleSerializer", "JsonPickleSerializer"]
-    thresholds = [64] if ctx.quick else [64, 1024]
+    thresholds = [64, 1024]        # everything externalised / small outcomes inline
     nd = 0
     for kind in ("mem", "sqlite"):
         for ser in sers:
@@ -85,6 +93,7 @@ def value_path(ctx: Ctx) -> None:
                     if st != S.SUCCESS:
                         ctx.report(f"body-returned-not-success[{kind}]:{ser}", f"[{kind}/{ser}] body returned {type(v).__name__} but status is {st.value}", {"backend": kind, "serializer": ser, "value": repr(v)[:80]})
                         continue
+                    forget_local_copies(app)
                     try:
                         got = inv.result
                     except BaseException as e:  # noqa: BLE001
@@ -105,6 +114,7 @@ def value_path(ctx: Ctx) -> None:
                     if inv.status != S.FAILED:
                         ctx.report(f"body-raised-not-failed[{kind}]:{ser}", f"[{kind}/{ser}] body raised {name}{args} but status is {inv.status.value}", {"backend": kind, "serializer": ser, "exc": name})
                         continue
+                    forget_local_copies(app)
                     try:
                         got = inv.result
                         ctx.report(f"failed-returned-value[{kind}]:{ser}", f"[{kind}/{ser}] FAILED invocation returned {got!r} instead of raising", {"backend": kind, "serializer": ser, "exc": name})
@@ -289,6 +299,59 @@ def scheduled(ctx: Ctx, kind: str) -> None:
                    "see violations")
 
 
+def late_writer(ctx: Ctx) -> None:
+    """a stale runner finishes AFTER the invocation was recovered and completed elsewhere, with the opposite outcome: its final
+    status is refused (it is not the owner) - and the outcome that belongs to the published status is still there"""
+    from pynenc.invocation.status import InvocationStatus as S
+
+    for kind in ("mem", "sqlite"):
+        for ser in ("JsonSerializer", "PickleSerializer"):
+            for winner in ("success", "failed"):
+                app = make_app(kind, ctx.tmp, app_id=f"c05late{kind}{ser}{winner}", serializer_cls=ser, min_size_to_cache=64)
+                echo = app.task(T.c05_echo)
+                o = app.orchestrator
+                a, b, r = rctx("rA"), rctx("rB"), rctx("rRecovery")
+                inv = echo("x" * 80 if ctx.rng.random() < 0.5 else {"v": 1})
+                i = inv.invocation_id
+                o.set_invocation_status(i, S.PENDING, a)
+                o.set_invocation_status(i, S.RUNNING, a)                       # A is slow ...
+                o.set_invocation_status(i, S.RUNNING_RECOVERY, r)
+                o.reroute_invocations({i}, r)
+                got = list(o.get_invocations_to_run(1, b))                     # ... B takes over
+                if not got:
+                    continue
+                o.set_invocation_status(i, S.RUNNING, b)
+                if winner == "success":
+                    o.set_invocation_result(got[0], "value-of-B", b)
+                else:
+                    o.set_invocation_exception(got[0], ValueError("failure-of-B", 7), b)
+                late = None
+                try:                                                           # A finishes late, the other way round
+                    if winner == "success":
+                        o.set_invocation_exception(inv, KeyError("late-failure-of-A"), a)
+                    else:
+                        o.set_invocation_result(inv, "late-value-of-A", a)
+                    late = "accepted"
+                except BaseException as e:  # noqa: BLE001
+                    late = type(e).__name__
+                flush(app)
+                forget_local_copies(app)
+                ctx.count()
+                ctx.distinct((kind, ser, "late-writer", winner))
+                st = o.get_invocation_status(i)
+                rep = {"scenario": "late-writer", "backend": kind, "serializer": ser, "published": winner, "late_attempt": late}
+                reader = app.state_backend.get_invocation(i)
+                try:
+                    val = reader.get_final_result()
+                    outcome = ("value", val)
+                except BaseException as e:  # noqa: BLE001
+                    outcome = ("raised", type(e).__name__, tuple(getattr(e, "args", ())))
+                want = ("value", "value-of-B") if winner == "success" else ("raised", "ValueError", ("failure-of-B", 7))
+                if st.value != winner or outcome != want:
+                    ctx.report(f"outcome-lost-to-late-writer[{kind}]:{winner}", f"[{kind}/{ser}] runner B published {winner}; the stale runner A then tried to finish the other way ({late}): a reader now "
+                                                                              f"sees status {st.value} and {outcome} instead of {want}", rep)
+
+
 def run(ctx: Ctx) -> None:
     def gen() -> dict[str, str]:
         g = trs.gen()
@@ -300,6 +363,7 @@ def run(ctx: Ctx) -> None:
                        "reader vs worker enumerated depth-first with a pre-emption bound per (backend, outcome); distinct = distinct cases / schedules")
     value_path(ctx)
     fault_and_alias(ctx)
+    late_writer(ctx)
     for kind in ("mem", "sqlite"):
         scheduled(ctx, kind)
     ctx.sample({"effect_programs": {k: v for k, v in trp.extract(ctx.tmp).items() if k.startswith("run")}})
